@@ -137,6 +137,23 @@ def case_table(fmt, rng, tier):
     return pats
 
 
+def _mant(d):
+    return sum(x << (15 * k) for k, x in enumerate(d['m']))
+
+
+def _fits(dx, dy, op, limit=300):
+    """the exact result of dx op dy needs at most `limit` bits of mantissa"""
+    if 'sp' in dx or 'sp' in dy:
+        return False
+    mx, my = _mant(dx), _mant(dy)
+    if op == 'mul':
+        return mx.bit_length() + my.bit_length() <= limit
+    if mx == 0 or my == 0:
+        return True
+    top = max(dx['e'] + mx.bit_length(), dy['e'] + my.bit_length())
+    return top - min(dx['e'], dy['e']) + 1 <= limit
+
+
 def arith_rows(rng, n, rows):
     from py4hw.helper import FPNum
     for _ in range(n):
@@ -175,6 +192,8 @@ def arith_rows(rng, n, rows):
                 if f.nan or f.infinity:
                     break
                 df = dyadic_of_fpnum(f)
+                if not _fits(dacc, df, 'mul' if step % 2 == 0 or fmt == 'dp' else 'add'):
+                    break       # the exact result would not fit the limb vectors of FloatFmt (WB bits)
                 nxt = acc.mul(f) if step % 2 == 0 or fmt == 'dp' else acc.add(f)
                 rows.append({'op': 'mul' if step % 2 == 0 or fmt == 'dp' else 'add', 'x': dacc, 'y': df, 'got': dyadic_of_fpnum(nxt)})
                 acc, dacc = nxt, dyadic_of_fpnum(nxt)
